@@ -213,7 +213,7 @@ def run_rc(prop, hname, seed, cases, procs, workdir, budget_s, extra_args=(), ma
         crash = f"{workdir}/{hname}.crash.{k}.json"
         logf = open(f"{workdir}/{hname}.log.{k}", "w")
         args = [f"{HB}/{hname}", "--seed", str(seed * 1000 + k), "--cases", str(per), "--out", out, "--crash", crash,
-                *extra_args]
+                "--shard", str(k), str(procs), *extra_args]
         if max_size is not None:
             args += ["--max-size", str(max_size)]
         p = subprocess.Popen(args, stdout=logf, stderr=subprocess.STDOUT, env=run_env(prop), cwd=workdir)
